@@ -12,10 +12,12 @@ Spec == Init /\ [][Next]_i
 R == Recs[i]
 Failed == {w \in DOMAIN R.ok : ~R.ok[w]}
 \* F10: an unprivileged writer failing with a permission error on an object another writer had already protected
-Dev == IF "F10" \in KnownDev /\ ~R.privileged /\ Failed # {} /\ ToSet(R.errtypes) \subseteq {"PermissionError"} THEN {"F10"} ELSE {}
+\* (EACCES = 13: opening the other writer's 0o444 file for writing; not EPERM, which a chmod by a non-owner gives)
+Dev == IF "F10" \in KnownDev /\ ~R.privileged /\ Failed # {} /\ ToSet(R.errtypes) \subseteq {"PermissionError"}
+          /\ ToSet(R.errnos) \subseteq {13} THEN {"F10"} ELSE {}
 Say(clause, d) == PrintT(<<"VERDICT", "C16", clause, i, 0, d>>)
 \* every schedule of the same writers must end in the same store
-SameOutcome == \A j \in 1..Len(Recs) : (Recs[j].writers = R.writers /\ Recs[j].privileged = R.privileged
+SameOutcome == \A j \in 1..Len(Recs) : (Recs[j].writers = R.writers /\ Recs[j].uids = R.uids
                                          /\ \A w \in DOMAIN Recs[j].ok : Recs[j].ok[w]) => Recs[j].sig = R.sig
 Judge ==
     i = 0 \/
